@@ -93,10 +93,15 @@ pub fn monitor_c03(made: &Made, l: &mut Local) {
         }
         // S1
         l.act("S1");
+        let srv_matches = |id: &RecId| matches!(&id.rdata, RData::Srv { port, target, .. } if *port == r.port && wire::dotted(target) == r.host);
         let srv_ok = hist
             .possibly_live(t, sl, |id| id.rtype == wire::T_SRV && wire::dotted(&id.name) == full)
-            .any(|(id, _)| matches!(&id.rdata, RData::Srv { port, target, .. } if *port == r.port && wire::dotted(target) == r.host));
+            .any(|(id, life)| srv_matches(id) && !hist.withdrawn_at(life, t));
         if !srv_ok {
+            if hist.possibly_live(t, sl, |id| id.rtype == wire::T_SRV && wire::dotted(&id.name) == full).any(|(id, _)| srv_matches(id)) {
+                l.violate(Violation::new("S1", "S1/host-port-from-srv-withdrawn-by-goodbye", format!("ServiceResolved({}) shows {}:{} from an SRV record that a goodbye had withdrawn", r.fullname, r.host, r.port)).with(wit()));
+                continue;
+            }
             let ever = hist
                 .lives_of(|id| id.rtype == wire::T_SRV && wire::dotted(&id.name) == full)
                 .any(|(id, _)| matches!(&id.rdata, RData::Srv { port, target, .. } if *port == r.port && wire::dotted(target) == r.host));
@@ -127,8 +132,15 @@ pub fn monitor_c03(made: &Made, l: &mut Local) {
             for ifi in ifs.iter() {
                 let ok = hist
                     .possibly_live(t, sl, |id| (id.rtype == wire::T_A || id.rtype == wire::T_AAAA) && wire::dotted(&id.name).to_lowercase() == host_spelled && id.if_index == Some(*ifi))
-                    .any(|(id, _)| matches_ip(id));
+                    .any(|(id, life)| matches_ip(id) && !hist.withdrawn_at(life, t));
                 if !ok {
+                    let withdrawn = hist
+                        .possibly_live(t, sl, |id| (id.rtype == wire::T_A || id.rtype == wire::T_AAAA) && wire::dotted(&id.name).to_lowercase() == host_spelled && id.if_index == Some(*ifi))
+                        .any(|(id, _)| matches_ip(id));
+                    if withdrawn {
+                        bad = Some((ip, "address-withdrawn-by-goodbye"));
+                        break;
+                    }
                     let ever = hist
                         .lives_of(|id| (id.rtype == wire::T_A || id.rtype == wire::T_AAAA) && wire::dotted(&id.name).to_lowercase() == host_spelled)
                         .any(|(id, _)| matches_ip(id));
@@ -153,7 +165,7 @@ pub fn monitor_c03(made: &Made, l: &mut Local) {
             l.act("S3");
             let ok = hist
                 .possibly_live(t, sl, |id| id.rtype == wire::T_TXT && wire::dotted(&id.name) == full)
-                .any(|(id, _)| matches!(&id.rdata, RData::Txt(b) if txt_as_crate_decodes(b) == got));
+                .any(|(id, life)| matches!(&id.rdata, RData::Txt(b) if txt_as_crate_decodes(b) == got) && !hist.withdrawn_at(life, t));
             if !ok {
                 l.violate(
                     Violation::new("S3", "S3/properties-not-from-live-txt", format!("ServiceResolved({}) shows properties that no live TXT record of the instance decodes to", r.fullname))
@@ -291,6 +303,11 @@ pub fn monitor_c05(made: &Made, l: &mut Local) {
                 // the instance, and its removal is due at the PTR's own end.
                 continue;
             }
+            if *kind != "ptr" && made.verifies.iter().any(|(t, vi, to)| (t + to).abs_diff(*e_t) <= sl + 1 && !scen::wire_name(vi).eq(&inst)) {
+                // the records ended because a verify request for ANOTHER instance (sharing the host) timed out:
+                // the statement obliges a removal for the verified instance only
+                continue;
+            }
             if *kind == "address" {
                 // only an instance that was resolved can lose "the last address of its host"
                 let resolved_before = reported.iter().any(|(t, res)| *res && *t + g_early < *e_t && !removed.iter().any(|r| *r >= *t && *r + g_early < *e_t));
@@ -421,11 +438,69 @@ pub fn run_c03(report: &Report, tier: &Tier) {
     });
 }
 
+/// D4 in isolation: one resolved instance with long TTLs, nothing else going on, a verify
+/// request with timeout T that the responder answers (no removal at all) or not (removal
+/// at T, not before: nothing else can make the daemon look at the instance earlier).
+pub fn verify_case(seed: u64, l: &mut Local) {
+    use crate::scen::Svc;
+    let mut rng = crate::util::Rng::new(seed);
+    let mut w = World::new(seed);
+    let stepping = if rng.chance(1, 3) { Stepping::Eager(10) } else { Stepping::Lazy };
+    w.set_stepping(stepping);
+    let sl = slack(stepping);
+    let h = w.add_host(scen::single_v4());
+    w.set_ip_check_interval(h, 3600);
+    let Some(chan) = w.browse(h, browser::TY) else { return };
+    w.run_for(rng.below(900));
+    let mut s = Svc::new(browser::TY, "verified", "verified-host.local", [10, 0, 0, 40]);
+    s.ttl_srv = 4500;
+    s.ttl_addr = 4500;
+    w.inject_msg(h, 2, scen::peer4(40), &s.announce());
+    w.run_for(1200 + rng.below(2000));
+    let timeout = *rng.pick(&[1u64, 250, 400, 999, 1000, 1001, 1500, 2500, 2750, 4321, 10_000]);
+    let answered = rng.chance(1, 3);
+    let t = w.now();
+    w.verify(h, &s.fullname(), timeout);
+    if answered {
+        // the responder answers before the timeout
+        w.run_until(t + timeout * (1 + rng.below(8)) / 10);
+        w.inject_msg(h, 2, scen::peer4(40), &s.announce());
+    }
+    let horizon = t + timeout + 3000;
+    w.run_until(horizon);
+    l.evaluations += 1;
+    l.distinct.insert(util::fnv_str(&format!("verify|{timeout}|{answered}|{stepping:?}")));
+    if w.trace.deaths().any(|d| matches!(d.ev, Ev::Death { panicked: true, .. })) {
+        l.inconclusive.push(format!("daemon died in a C05 verify scenario (seed {seed})"));
+        return;
+    }
+    let removed: Vec<u64> = w.trace.obs(chan).filter_map(|(e, o)| if matches!(o, Obs::Removed(..)) && e.t >= t { Some(e.t - t) } else { None }).collect();
+    let wit = || json!({"timeout_ms": timeout, "answered": answered, "removed_after_ms": removed, "trace": scen::witness_window(&w.trace, t.saturating_sub(10), horizon, 40)});
+    l.act("D4");
+    if answered && timeout > 20 {
+        if let Some(r) = removed.first() {
+            l.violate(Violation::new("D4", "D4/verify/removed-although-answered", format!("verify({timeout} ms) was answered in time, yet ServiceRemoved came after {r} ms")).with(wit()));
+        }
+        return;
+    }
+    if answered {
+        return;
+    }
+    match removed.first() {
+        None => l.violate(Violation::new("D4", "D4/verify/no-removal-after-timeout", format!("verify({timeout} ms) stayed unanswered but no ServiceRemoved came")).with(wit())),
+        Some(r) if *r + sl < timeout => l.violate(Violation::new("D4", "D4/verify/removed-before-timeout", format!("verify({timeout} ms) stayed unanswered; ServiceRemoved came after {r} ms already")).with(wit())),
+        Some(r) if *r > timeout + sl + 1 => l.violate(Violation::new("D4", "D4/verify/removed-late", format!("verify({timeout} ms) stayed unanswered; ServiceRemoved came only after {r} ms")).with(wit())),
+        _ => {}
+    }
+}
+
 pub fn run_c05(report: &Report, tier: &Tier) {
     report.set_rule(
-        "the browser scenarios of C03 (announce / update / goodbye / partial goodbye / vanish / verify with timeouts {0, 1 ms, 1 s, 10 s, 1 h}, \
+        "the browser scenarios of C03 (announce / update / goodbye / partial goodbye / vanish / verify with timeouts {0, 1, 400, 999, 1000, 1001, 1500, 2750 ms, 10 s, 1 h}, \
          refresh queries answered or not, lossy deliveries) with TTLs 1 s .. 4500 s and horizons of 3 x the largest TTL; every ServiceRemoved and \
-         every departure instant computed from the delivered-record history is judged; distinct by (shape, event kinds)",
+         every departure instant computed from the delivered-record history is judged; plus verify requests in isolation (one resolved instance, \
+         timeouts {1, 250, 400, 999, 1000, 1001, 1500, 2500, 2750, 4321 ms, 10 s}, answered in time or not): removal at the timeout to the millisecond; \
+         distinct by (shape, event kinds) / (timeout, answered, stepping)",
     );
     report.assume("a removal up to one second before a record's expiry is accepted (the crate treats the last second of a record as gone)");
     for r in ["D2", "D3", "D4", "D5"] {
@@ -434,8 +509,13 @@ pub fn run_c05(report: &Report, tier: &Tier) {
     let seed = report.seed;
     let n: u64 = if tier.thorough { 250_000 } else { 4_000 };
     // oversleep is part of C11's quantifier, not of C05's "plus at most one scheduling step"
-    run_parallel(report, n, threads(), tier.budget_s, |i, l| {
+    run_parallel(report, n, threads(), tier.budget_s * 0.9, |i, l| {
         let opts = Opts { stepping: Some(match i % 4 { 0 => Stepping::Eager(10), 1 => Stepping::Eager(50), _ => Stepping::Lazy }), ..Opts::default() };
         run_one(util::mix(seed, 0xC05_0000 + i), "C05", &opts, l);
+    });
+    // verify requests in isolation (the timeout to the millisecond)
+    let nv: u64 = if tier.thorough { 20_000 } else { 600 };
+    run_parallel(report, nv, threads(), tier.budget_s * 0.1, |i, l| {
+        verify_case(util::mix(seed, 0xC05_7000 + i), l);
     });
 }
